@@ -21,6 +21,7 @@ def intern (a : Array String) (x : String) : Array String × Nat :=
   | none => (a.push x, a.size)
 
 def chanIdx (s : IS) (x : String) : Nat := (indexOf s.chans x).getD 999
+def strIdx (s : IS) (x : String) : Nat := (indexOf s.streams x).getD 999
 def fibIdx (s : IS) (x : String) : Nat := ((s.fibers.toList.map (·.name)).findIdx? (· == x)).getD 999
 
 partial def parseClauses (s : IS) : Nat → List String → List Clause → IS × List Clause × List String
@@ -43,6 +44,12 @@ partial def parseWait (s : IS) : List String → IS × Wait
   | "deadline" :: us :: rest =>
       let (s, inner) := parseWait s rest
       (s, .deadline us.toNat! inner)
+  | "read" :: p :: n :: _ => (s, .read (strIdx s p) n.toNat! false)
+  | "chunk" :: p :: n :: _ => (s, .read (strIdx s p) n.toNat! true)
+  | "readt" :: p :: n :: us :: _ => (s, .timed us.toNat! (.read (strIdx s p) n.toNat! false))
+  | "write" :: p :: n :: _ => (s, .write (strIdx s p) n.toNat!)
+  | "writet" :: p :: n :: us :: _ => (s, .timed us.toNat! (.write (strIdx s p) n.toNat!))
+  | "pwait" :: k :: _ => (s, .pwait ((indexOf s.procs k).getD 999))
   | _ => (s, .sleep 0)
 
 def parseStmt (s : IS) : List String → IS × Option Stmt
@@ -54,7 +61,25 @@ def parseStmt (s : IS) : List String → IS × Option Stmt
   | ["spawn", f] => (s, some (.spawn (fibIdx s f)))
   | ["dump", t] => (s, some (.dump t))
   | ["count", c] => (s, some (.count (chanIdx s c)))
+  | ["closestream", p] => (s, some (.closeStream (strIdx s p)))
+  | ["exitproc", k] => (s, some (.exitproc ((indexOf s.procs k).getD 999)))
   | _ => (s, none)
+
+def parseRes (t : String) : KRes :=
+  if t == "again" then .again
+  else match t.splitOn ":" with
+    | "err" :: rest => .err (":".intercalate rest)
+    | n :: rest => .bytes n.toNat! (":".intercalate rest)
+    | [] => .again
+
+def parseK : List String → Option KIn
+  | ["rd", nm, lim, res] => some (.rd nm lim.toNat! (parseRes res))
+  | ["wr", nm, lim, res] => some (.wr nm lim.toNat! (parseRes res))
+  | ["poll", n, t] => some (.poll n.toNat! t.toNat!)
+  | ["ev", nm, mask] => some (.ev nm mask)
+  | ["self"] => some .self
+  | ["timer"] => some .timer
+  | _ => none
 
 def runScenario (s : IS) : String :=
   let m := fibIdx s "M"
@@ -94,6 +119,16 @@ def stepLine (s : DS) (toks : List String) : DS × String :=
       let sc := s.sc
       let i := sc.chans.size
       ({ s with sc := { sc with chans := sc.chans.push name, w := { sc.w with chans := set sc.w.chans i { limit := cap.toNat! } } } }, "ok")
+  | ["stream", name] =>
+      let sc := s.sc
+      ({ s with sc := { sc with streams := sc.streams.push name, sclosed := sc.sclosed.push false } }, "ok")
+  | ["proc", name] =>
+      let sc := s.sc
+      ({ s with sc := { sc with procs := sc.procs.push name } }, "ok")
+  | "k" :: rest =>
+      match Scn.parseK rest with
+      | some k => ({ s with sc := { s.sc with kin := s.sc.kin ++ [k] } }, "ok")
+      | none => (s, "error bad-k")
   | ["fiber", name, _] =>
       let sc := s.sc
       ({ s with sc := { sc with fibers := sc.fibers.push { name := name } }, cur := some sc.fibers.size }, "ok")
